@@ -40,14 +40,14 @@ func kvGet[T any](c kv, k string, d []T) T {
 	return z
 }
 
-func (c kv) Architecture() string                       { return "verif" }
-func (c kv) String(k string, d ...string) string        { return kvGet(c, k, d) }
-func (c kv) Uint(k string, d ...uint32) uint32          { return kvGet(c, k, d) }
-func (c kv) Float(k string, d ...float32) float32       { return kvGet(c, k, d) }
-func (c kv) Bool(k string, d ...bool) bool              { return kvGet(c, k, d) }
-func (c kv) Strings(k string, d ...[]string) []string   { return kvGet(c, k, d) }
-func (c kv) Uints(k string, d ...[]uint32) []uint32     { return kvGet(c, k, d) }
-func (c kv) Floats(k string, d ...[]float32) []float32  { return kvGet(c, k, d) }
+func (c kv) Architecture() string                      { return "verif" }
+func (c kv) String(k string, d ...string) string       { return kvGet(c, k, d) }
+func (c kv) Uint(k string, d ...uint32) uint32         { return kvGet(c, k, d) }
+func (c kv) Float(k string, d ...float32) float32      { return kvGet(c, k, d) }
+func (c kv) Bool(k string, d ...bool) bool             { return kvGet(c, k, d) }
+func (c kv) Strings(k string, d ...[]string) []string  { return kvGet(c, k, d) }
+func (c kv) Uints(k string, d ...[]uint32) []uint32    { return kvGet(c, k, d) }
+func (c kv) Floats(k string, d ...[]float32) []float32 { return kvGet(c, k, d) }
 
 // ---- GPT-2 byte <-> rune table (written independently of the code under test) ----
 
@@ -212,8 +212,8 @@ func synthBPE() *tokSpec {
 		{" ", "a", true}, {" ", " ", true}, {"  ", " ", true}, {" a", "b", true}, {" ", "B", true}, {"B", "a", true}, {" B", "a", true},
 		{"\n", "\n", true}, {"\r", "\n", true}, {"\t", "\t", true}, {" ", "\n", true},
 		{"'", "s", true}, {"s", "s", true}, {"a", "s", true}, {"s", "a", true}, {"1", "1", true}, {"11", "1", true}, {"!", "!", true}, {"~", "~", true},
-		{"\xc3", "\xa9", true},                             // é
-		{"\xc2", "\xa0", true}, {"\xc2", "\xad", true},     // NBSP, SHY share the lead byte
+		{"\xc3", "\xa9", true},                         // é
+		{"\xc2", "\xa0", true}, {"\xc2", "\xad", true}, // NBSP, SHY share the lead byte
 		{"\xe4", "\xb8", true}, {"\xe4\xb8", "\xad", true}, // 中 in two steps
 		{"\xf0", "\x9f", true}, {"\x98", "\x80", true}, {"\xf0\x9f", "\x98\x80", true}, // 😀 in three steps
 		{"\xcc", "\x81", true}, {"a", "\xcc\x81", true}, // combining acute, then a + acute
